@@ -1,0 +1,24 @@
+//go:build verif
+
+// Contracts for package net (bundled TLS transport), read by /verif's govc (comment-only; no declarations).
+// Library functions (TLS exporter, PEM, X.509, ECDSA, ASN.1, SHA-256, hex) are uninterpreted deterministic
+// functions of the contents of their arguments; the built-ins used below name the same functions.
+
+package net
+
+//@ func authenticateConnection
+//@   props C16 C10
+//@   requires conn != nil && logger != nil && typeIs(conn, "*tls.Conn") && dyn(conn, "*tls.Conn") != nil
+//@   at return:
+//@     assert [binding]    result.2 ==> string(h.TLSBinding) == tlsExporter(conn, "MPC", "MPC", 32)
+//@     assert [identity]   result.2 ==> pemOK(h.Identity) && certOK(pemBytes(h.Identity)) &&
+//@                           typeIs(certKey(pemBytes(h.Identity)), "*ecdsa.PublicKey")
+//@     assert [signature]  result.2 ==> h.Signature == nil &&
+//@                           ecdsaVerify(dyn(certKey(pemBytes(h.Identity)), "*ecdsa.PublicKey"), sha256(asn1(h)), sig)
+//@     assert [registered] result.2 ==> hex(sha256(concat(h.Domain, h.Identity))) in p2id &&
+//@                           result.1 == p2id[hex(sha256(concat(h.Domain, h.Identity)))] && result.0 == h.Domain
+//@     assert [rejected]   !result.2 ==> result.0 == "" && result.1 == 0
+//@
+//@ func handleConn
+//@   props C16 C10
+//@   requires conn != nil && l != nil && stopFlag != nil && typeIs(conn, "*tls.Conn") && dyn(conn, "*tls.Conn") != nil
